@@ -216,6 +216,9 @@ func (g *Gen) callExternal(e *Ev, fn *types.Func, recv *Term, args []Term, n *as
 		}
 		ce.results = results
 		for _, c := range blk.clauses("ensures") {
+			if !assumableAtCallSite(c) {
+				continue
+			}
 			t := ce.evSpec(c.Text)
 			e.assumeQ(smtImp(e.guardCond(), t.S))
 			g.Assumed["assumed contract of "+key+": "+c.Text] = true
@@ -360,6 +363,9 @@ func (g *Gen) callFuncValue(e *Ev, fv Term, sig *types.Signature, args []Term, n
 		results = []Term{res}
 	}
 	for _, c := range b.clauses("ensures") {
+		if !assumableAtCallSite(c) {
+			continue
+		}
 		ce := mk(e.st, pre)
 		ce.results = results
 		t := ce.evSpec(c.Text)
